@@ -44,7 +44,12 @@ func (u *Upsert) Encode(c *proto.PacketContext, wr io.Writer) error {
 		if err := util.WriteUUID(wr, entry.ProfileID); err != nil {
 			return err
 		}
-		for _, action := range u.ActionSet {
+		// Action data follows the protocol's fixed action order (the order of the bit set),
+		// whatever order the actions were supplied in.
+		for _, action := range UpsertActions {
+			if !ContainsAction(u.ActionSet, action) {
+				continue
+			}
 			if err := action.Encode(c, wr, entry); err != nil {
 				return err
 			}
